@@ -1028,11 +1028,20 @@ def r_cache_answer(c):
         raise AnalysisError(f"only {n} cache insertions with a computed result found (floor 5)")
 
 
+def r_shape_component_tests(c):
+    """(shared rule, pta/rules/common.py) array-valued shape components are selected
+    with isinstance(.., Array), never with a narrower class"""
+    from pta.rules.common import check_shape_component_tests
+    n = check_shape_component_tests(c, "R13-CHILDREN", ["pytato.analysis", "pytato.transform", "pytato.transform.materialize", "pytato.transform.metadata", "pytato.transform.calls", "pytato.codegen", "pytato.distributed.partition"])
+    if n < 6:
+        raise AnalysisError(f"only {n} type tests on shape components found (floor 6)")
+
+
 SPEC = Spec(
     prop="C13",
     rules=[r_children, r_children_overrides, r_once, r_key, r_collision, r_clone,
            r_eq_memo, r_state, r_shared_or, r_visit_tables, r_conditional_passthrough,
-           r_cache_answer, r_component_guard],
+           r_cache_answer, r_component_guard, r_shape_component_tests],
     floors={"R13-CHILDREN": 212, "R13-ONCE": 14, "R13-KEY": 20, "R13-COLLISION": 8,
             "R13-DOUBLE-CACHE": 7, "R13-CHILDREN-OVR": 20, "R13-CLONE": 12,
             "R13-EQ-MEMO": 22, "R13-STATE": 7},
@@ -1063,7 +1072,7 @@ SPEC = Spec(
         "R13-CHILDREN-OVR also: an element of a child field is passed on unmapped only under the test that it is not an Array. R13-ONCE also: a visit key is looked up in and added to the same table, arrays and function definitions have separate tables. "
         "R13-CHILDREN counts a child as handed on only as itself or as an element of itself, not through an attribute computed from it (rec(expr.shape) is not rec(expr.indices)). "
         "R13-CHILDREN-OVR also: the guard in front of self.rec(v) on a loop element v is isinstance(v, Array) and nothing narrower. "
-        "R13-COLLISION also: every cache insertion with a computed result returns what the cache hands back (directly or through a local returned unchanged)."),
+        "R13-COLLISION also: every cache insertion with a computed result returns what the cache hands back (directly or through a local returned unchanged). Shared rule: wherever the array-valued components of a shape are picked out, the type test is isinstance(.., Array), never a narrower class."),
     not_decided=(
         "Visit counts and object identity on concrete exponential-path graphs "
         "(they follow from R13-ONCE but are not measured); 'never creates more "
